@@ -47,6 +47,19 @@ var c03Limits = []c03Limit{
 	}, 8, 8},
 }
 
+// KM: a compute-heavy and a memory-heavy shape — the type with the most cpu is NOT the type with the most memory, so
+// "the largest instance type" is a different one per limited resource.
+var catalogKM = []world.ITSpec{
+	{Name: "c8", CPU: 8, MemGi: 8, Pods: 8, Offers: []world.OfSpec{of("a", "on-demand", 3), of("b", "on-demand", 3.1)}},
+	{Name: "r4", CPU: 4, MemGi: 32, Pods: 8, Offers: []world.OfSpec{of("a", "on-demand", 2), of("b", "on-demand", 2.1)}},
+}
+
+func memGi(n int64) func(*corev1.Pod) {
+	return func(p *corev1.Pod) {
+		p.Spec.Containers[0].Resources.Requests[corev1.ResourceMemory] = resource.MustParse(fmt.Sprintf("%dGi", n))
+	}
+}
+
 func c03Dynamic(r *ev.Rec) {
 	shapes := []string{"small", "medium", "large", "zone-b-selector-large", "hostport-8080"}
 	rounds, maxLaunch := 2, 3
@@ -63,16 +76,51 @@ func c03Dynamic(r *ev.Rec) {
 	}
 	existing := []int{0, 1} // no node / one initialized m node with a pod
 	cats := []string{"K1", "K4"}
-	enum.Run(r, enum.Size(len(bl), len(cats), len(c03Limits), len(existing)), func(idx int64, l *ev.Local) {
-		d := enum.Odo(idx, len(bl), len(cats), len(c03Limits), len(existing))
-		lim := c03Limits[d[2]]
+	// memory-shaped worlds: catalog KM, pods that need 6Gi each (one per c8, several per r4), memory / cpu limits
+	savedShapes, savedCats := podShapes, catalogs
+	podShapes = append(append([]podShape{}, podShapes...), podShape{name: "mem-heavy-3cpu-6Gi", cpu: 3000, mods: []func(*corev1.Pod){memGi(6)}})
+	catalogs = map[string][]world.ITSpec{"KM": catalogKM}
+	for k, v := range savedCats {
+		catalogs[k] = v
+	}
+	defer func() { podShapes, catalogs = savedShapes, savedCats }()
+	mh, sm := len(podShapes)-1, shapeIdx("small")
+	kmLimits := []c03Limit{
+		{"memory=48Gi", func(np *v1.NodePool) { np.Spec.Limits = v1.Limits{corev1.ResourceMemory: resource.MustParse("48Gi")} }, 0, 48},
+		{"memory=40Gi", func(np *v1.NodePool) { np.Spec.Limits = v1.Limits{corev1.ResourceMemory: resource.MustParse("40Gi")} }, 0, 40},
+		{"cpu=12", func(np *v1.NodePool) { np.Spec.Limits = v1.Limits{corev1.ResourceCPU: resource.MustParse("12")} }, 12, 0},
+	}
+	type dynCase struct {
+		batch []int
+		cat   string
+		lim   c03Limit
+		ex    int
+	}
+	var cases []dynCase
+	for _, b := range bl {
+		for _, c := range cats {
+			for _, lm := range c03Limits {
+				for _, e := range existing {
+					cases = append(cases, dynCase{b, c, lm, e})
+				}
+			}
+		}
+	}
+	for _, b := range [][]int{{mh}, {mh, mh}, {mh, mh, mh}, {mh, mh, sm}, {mh, sm, sm}} {
+		for _, lm := range kmLimits {
+			cases = append(cases, dynCase{b, "KM", lm, 0})
+		}
+	}
+	enum.Run(r, int64(len(cases)), func(idx int64, l *ev.Local) {
+		dc := cases[idx]
+		lim := dc.lim
 		ex := &explore.Explorer{Bound: 0, MaxExecs: 3000}
 		ex.Exec = func(run *explore.Run) {
 			saved := poolCfgs
 			poolCfgs = append([]poolCfg{}, saved...)
 			poolCfgs = append(poolCfgs, poolCfg{"limited", func() []*v1.NodePool { return []*v1.NodePool{world.NodePool("default", lim.mod)} }})
 			defer func() { poolCfgs = saved }()
-			c := SchedCase{Batch: bl[d[0]], Catalog: cats[d[1]], Pool: len(poolCfgs) - 1, Nodes: existing[d[3]], Pref: options.PreferencePolicyRespect, MinV: options.MinValuesPolicyStrict, Workers: 1}
+			c := SchedCase{Batch: dc.batch, Catalog: dc.cat, Pool: len(poolCfgs) - 1, Nodes: dc.ex, Pref: options.PreferencePolicyRespect, MinV: options.MinValuesPolicyStrict, Workers: 1}
 			env := buildSched(c)
 			w := env.W
 			ctrl := lifecycle.NewController(w.Clock, w.Client, w.CP, w.Rec, nodepoolhealth.NewState(), nil)
@@ -621,7 +669,7 @@ func firstLines(s string, n int) string {
 
 func init() {
 	register("C03", "model_checking", func(r *ev.Rec) {
-		r.Rule = "A (dynamic pools): pod batches <=2 x catalogs x 5 limit sets x {no node, one node}: 2/3 rounds of the real Provisioner.Reconcile (batcher, Synced gate), every NodeClaim launched through the real lifecycle controller as EVERY permitted (type, offering) (up to 3/4 per claim), optional extra pass before launch and optional late pod; after every launch the capacity of the pool's non-deleting nodes (from the provider's instance table) must be within the limits. " +
+		r.Rule = "A (dynamic pools): pod batches <=2 x catalogs x 5 limit sets x {no node, one node}, plus a catalog whose largest-cpu type is not its largest-memory type x batches <=3 of 6Gi pods x memory / cpu limits: 2/3 rounds of the real Provisioner.Reconcile (batcher, Synced gate), every NodeClaim launched through the real lifecycle controller as EVERY permitted (type, offering) (up to 3/4 per claim, one launch of every permitted instance type first), optional extra pass before launch and optional late pod; after every launch the capacity of the pool's non-deleting nodes (from the provider's instance table) must be within the limits. " +
 			"B (seam): the real NodePoolState under EVERY interleaving of the operation programs of concurrent reconciles (provisioning = Reserve; per slot Create ok|fail then Release; informer = Deleting/Cleanup; queue = PendingDisruption + replacement provisioning): no panic, counted claims never exceed the limit. " +
 			"C (protocol): the real static provisioning (twice) and deprovisioning controllers, the real NodeClaim informer and an environment thread (user deletes a NodeClaim / replicas +-1) and, when a NodeClaim is drifted, the real disruption controller restricted to StaticDrift with the real orchestration queue, as cooperative threads with scheduling points at every API call, all schedules with <=1/2 preemptions x a failing NodeClaim create, replicas {1,2} x node limit {unset, replicas, replicas+1} x existing {r-1,r,r+1}; invariant at every scheduling point: NodeClaims <= node limit; no controller panic; after a fault-free settle the live count equals the replica count. states = scheduling points / seam states visited; non-trivial = distinct executions"
 		r.Assumptions = []string{"fan-out of CreateNodeClaims is 1 in the protocol part (one NodeClaim per reconcile) so that the child goroutine is attributed to its thread", "settling plays finalization of deleting NodeClaims and kubelet bring-up of new ones"}
